@@ -170,3 +170,50 @@ package ed25519
 //@ func writeDom2(w, f, c)
 //@   ct-only
 //@   ct secret w
+
+// ---------------- batch verification (batch_verify.go) ----------------
+// Scratch heap (batchHeap). Its two long arrays carry element invariants: every scalar is a
+// reduced scalar (limbs in range, value below L), every point has reduced coordinates. These are
+// assumed whenever an element is addressed and proved after every write to an element.
+
+// The Bos-Coster multi-scalar multiplication is NOT verified: trusted contract (memory safety and
+// magnitudes only; nothing is claimed here about the point it returns).
+//@ func multiScalarmultVartime(r, heap, count)
+//@   assumed
+//@   elem-invariant heap.scalars : reduced(*elem)
+//@   elem-invariant heap.points : red4(*elem)
+//@   requires count >= 9 && count <= 129 && count % 2 == 1
+//@   modifies *r, heap.points, heap.scalars, heap.heap, heap.size
+//@   ensures red4(*r)
+
+//@ func isNeutralVartime(p)
+//@   requires red3(*p)
+//@   modifies nothing
+//@   ensures result == isneutral(smul8(P3(*p)))
+
+//@ func VerifyBatch(rand, publicKeys, messages, sigs, opts)
+//@   requires opts != nil
+//@   modifies nothing
+//@   inline writeDom2
+//@   elem-invariant batch.scalars : reduced(*elem)
+//@   elem-invariant batch.points : red4(*elem)
+//@   loop#1 modifies rangeindex, valid[0:len(valid)]
+//@   loop#1 invariant -1 <= rangeindex && rangeindex < len(valid)
+//@   loop#2 modifies f, num, offset, batch, p, hash, ret, valid[0:len(valid)]
+//@   loop#2 invariant 0 <= offset && 0 <= num && offset + num == len(publicKeys)
+//@   loop#3 modifies i, batch.scalars
+//@   loop#3 invariant 0 <= i && i <= batchSize
+//@   loop#4 modifies i, batch.scalars, ret, batchOk, valid[0:len(valid)]
+//@   loop#4 invariant 0 <= i && i <= batchSize && forall(k, 0, i, len(sigs[k+offset]) == 64)
+//@   loop#5 modifies i, batch.scalars
+//@   loop#5 invariant 1 <= i && i <= batchSize
+//@   loop#6 modifies f, i, batch.scalars, hash, ret, batchOk, valid[0:len(valid)]
+//@   loop#6 invariant 0 <= i && i <= batchSize && forall(k, 0, i, len(publicKeys[k+offset]) == 32)
+//@   loop#7 modifies i, batch.points, ret, batchOk, valid[0:len(valid)]
+//@   loop#7 invariant 0 <= i && i <= batchSize
+//@   loop#8 modifies i, ret, valid[0:len(valid)]
+//@   loop#8 invariant 0 <= i && i <= batchSize
+//@   loop#9 modifies i, ret, valid[0:len(valid)]
+//@   loop#9 invariant 0 <= i && i <= num
+//@   ensures len(opts.Context) > 255 ==> (result0 == false && result1 == nil && result2 != nil)
+//@   ensures result2 == nil ==> (len(result1) == len(publicKeys) && fresh(result1))
